@@ -206,6 +206,8 @@ class Num:
             return parse_generic_first(bt, "std::result::Result") or parse_generic_first(bt, "std::option::Option")
         if k == "lin":
             return self.ty_of(t[1])
+        if k == "lincomb":
+            return "usize"
         if k == "havoc":
             return t[2]
         if k in ("trip", "slen", "ghost"):
@@ -275,6 +277,14 @@ class Num:
             if b is None:
                 return None
             return b + self.atom(t[3]).scale(t[2])
+        if k == "lincomb":
+            out = const(t[2])
+            for c, x in t[1]:
+                a = self.aff(x)
+                if a is None:
+                    return None
+                out = out + a.scale(c)
+            return out
         if k == "cast":
             src = self.aff(t[1])
             if src is None:
@@ -369,7 +379,7 @@ class Num:
         if not shl:
             return out
         logs = [e for e in getattr(self, "ctx_events", []) if e[0] == "call" and e[1].endswith("::ilog2")]
-        base = store + self.all_defs()
+        base = self.close(store)
         for t in shl:
             a = self.aff(t[3])
             st = Aff({t: 1})
@@ -389,6 +399,28 @@ class Num:
         out = []
         for cons in self.defs.values():
             out.extend(cons)
+        return out
+
+    def close(self, cons, goals=()):
+        """cons + the definitional constraints of every atom mentioned in cons/goals (transitively).
+        Definitions are attached only to stores that mention the atom: a path that never computed a term must not inherit
+        facts that are true only where the term is defined (e.g. x - y >= 0 behind a subtraction)."""
+        seen = set()
+        todo = []
+        for c in list(cons) + list(goals):
+            for a in c[0]:
+                if a not in seen:
+                    seen.add(a)
+                    todo.append(a)
+        out = list(cons)
+        while todo:
+            a = todo.pop()
+            for d in self.defs.get(a, ()):
+                out.append(d)
+                for b in d[0]:
+                    if b not in seen:
+                        seen.add(b)
+                        todo.append(b)
         return out
 
     def cmp_cons(self, op, a, b, truth):
@@ -425,7 +457,7 @@ class Num:
             if cs is not None:
                 return cs
             # a != b
-            base = store + self.all_defs()
+            base = self.close(store, [le(a, b)])
             if lp.entails(base, le(a, b)):
                 return [lt(a, b)]
             if lp.entails(base, le(b, a)):
@@ -438,7 +470,7 @@ class Num:
             if op == "==":
                 return [le(a, const(v)), le(const(v), a)]
             out = []
-            base = store + self.all_defs()
+            base = self.close(store, [le(a, const(0))])
             for x in sorted(v):
                 if lp.entails(base + out, le(const(x), a)):
                     out.append(le(const(x + 1), a))
@@ -533,6 +565,41 @@ def natural_loops(body):
     return loops
 
 
+def null_space(rows, n):
+    """basis of { c | M c = 0 } over the rationals (Gaussian elimination)"""
+    M = [list(r) for r in rows if any(x != 0 for x in r)]
+    piv = []
+    r = 0
+    for c in range(n):
+        pr = None
+        for i in range(r, len(M)):
+            if M[i][c] != 0:
+                pr = i
+                break
+        if pr is None:
+            continue
+        M[r], M[pr] = M[pr], M[r]
+        pv = M[r][c]
+        M[r] = [x / pv for x in M[r]]
+        for i in range(len(M)):
+            if i != r and M[i][c] != 0:
+                f = M[i][c]
+                M[i] = [a - f * b for a, b in zip(M[i], M[r])]
+        piv.append(c)
+        r += 1
+        if r == len(M):
+            break
+    free = [c for c in range(n) if c not in piv]
+    basis = []
+    for fc in free:
+        v = [Fraction(0)] * n
+        v[fc] = Fraction(1)
+        for ri, pc in enumerate(piv):
+            v[pc] = -M[ri][fc]
+        basis.append(v)
+    return basis
+
+
 class Obligation:
     __slots__ = ("kind", "what", "status", "line", "detail", "fn", "callee", "blocks")
 
@@ -584,7 +651,7 @@ class NumWalker(Walker):
         return lin
 
     def full_store(self, st):
-        return self.store_of(st) + self.num.all_defs() + st.get("x_assume", [])
+        return self.num.close(self.store_of(st) + st.get("x_assume", []))
 
     def post_cons(self, st, ev):
         c = self.contracts.get(ev[1]) or (self.contracts.get(ev[4]) if ev[4] else None)
@@ -602,10 +669,11 @@ class NumWalker(Walker):
         cs = self.num.from_constraint((d, op, v), self.full_store(st))
         if not cs:
             return True
-        return lp.feasible(self.full_store(st) + cs)
+        return lp.feasible_after(self.full_store(st), self.num.close(cs))
 
     def state_feasible(self, st):
-        return lp.feasible(self.full_store(st))
+        full = self.full_store(st)
+        return lp.feasible_cached(full)
 
     def const_term(self, o):
         t = super().const_term(o)
@@ -631,7 +699,7 @@ class NumWalker(Walker):
     def entails(self, st, goals):
         base = self.full_store(st)
         # atoms introduced while translating the goals may bring definitional constraints
-        base = self.store_of(st) + self.num.all_defs() + st.get("x_assume", [])
+        base = self.num.close(self.store_of(st) + st.get("x_assume", []), goals)
         return all(lp.entails(base, g) for g in goals)
 
     # ---- run ---------------------------------------------------------------
@@ -653,6 +721,9 @@ class NumWalker(Walker):
         c = self.contracts.get(fname) or (self.contracts.get(resolved) if resolved else None)
         if c and c.get("ghost"):
             c["ghost"](self, st, args)
+        if c and c.get("self_effect"):
+            if c["self_effect"](self, st, args):
+                return [{}]
         if c and c.get("fork"):
             r = c["fork"](self, st, t, args)
             if r is not None:
@@ -718,6 +789,8 @@ class NumWalker(Walker):
                       max_paths=self.max_paths)
         w.region = set(region)
         w.region_head = head
+        w.inline = self.inline
+        w.unroll = self.unroll
         s2 = self.fork(st)
         s2["x_inloop"] = head
         s2["x_lin"] = list(st.get("x_lin", []))
@@ -797,7 +870,7 @@ class NumWalker(Walker):
         base_env = dict(st["env"])
         base_mem = dict(st["mem"])
         probe = self.sub(head, region, st)
-        backs = [p for p in probe if p.end[0] == "back"]
+        backs = [p for p in probe if p.end[0] == "back" and lp.feasible_cached(self.full_store(p.state))]
         if not backs:
             self.continue_after(probe, stack, record_inner=True)
             return
@@ -841,7 +914,7 @@ class NumWalker(Walker):
             g["mem"].update(cur_mem)
             g["log"].append(("lin", [le(const(0), num.atom(trip))]))
             res = self.sub(head, region, g)
-            bk = [p for p in res if p.end[0] == "back"]
+            bk = [p for p in res if p.end[0] == "back" and lp.feasible_cached(self.full_store(p.state))]
             if not bk:
                 break
         # inductive inequalities from the back edge: c(k) on every back path  =>  c(k-1) at the head, if it holds at entry
@@ -862,8 +935,46 @@ class NumWalker(Walker):
                     continue
                 cand = (co, k0 - co[trip])
                 at_entry = ({a: c for a, c in co.items() if a != trip}, cand[1])
-                if lp.entails(entry_store, at_entry):
+                if lp.entails(num.close(entry_store, [at_entry]), at_entry):
                     inv.append(cand)
+        # conservation laws between havocked numeric variables: x + y or x - y unchanged by every iteration
+        if bk and g is not None:
+            hv = []
+            for l, v in cur_env.items():
+                if isinstance(v, tuple) and v and v[0] == "havoc" and num.aff(v) is not None and self.body.local_name(l):
+                    hv.append((v, base_env.get(l, self.local_term(st, l)), ("env", l)))
+            for k, v in cur_mem.items():
+                if isinstance(v, tuple) and v and v[0] == "havoc" and num.aff(v) is not None:
+                    hv.append((v, base_mem.get(k, k), ("mem", k)))
+            def back_val(p, getter):
+                return p.state["env"].get(getter[1]) if getter[0] == "env" else p.state["mem"].get(getter[1], getter[1])
+            # linear combinations sum c_i*x_i left unchanged by every iteration: null space of the matrix of deltas
+            hv = [h for h in hv if all(num.aff(back_val(p, h[2])) is not None for p in bk)]
+            if len(hv) >= 2:
+                rows = {}
+                okm = True
+                for pi, p in enumerate(bk):
+                    for i, (vx, bx, gx) in enumerate(hv):
+                        a1, a0 = num.aff(back_val(p, gx)), num.aff(vx)
+                        if a1 is None or a0 is None:
+                            okm = False
+                            break
+                        d = a1 - a0
+                        for a, c in d.co.items():
+                            rows.setdefault((pi, a), [Fraction(0)] * len(hv))[i] = c
+                        if d.k != 0:
+                            rows.setdefault((pi, "__const__"), [Fraction(0)] * len(hv))[i] = d.k
+                    if not okm:
+                        break
+                if okm:
+                    for vec in null_space(list(rows.values()), len(hv)):
+                        lhs = Aff()
+                        rhs = Aff()
+                        for i, c in enumerate(vec):
+                            if c != 0:
+                                lhs = lhs + num.aff(hv[i][0]).scale(c)
+                                rhs = rhs + num.aff(hv[i][1]).scale(c)
+                        inv.extend([le(lhs, rhs), le(rhs, lhs)])
         # template bounds for havocked numeric variables:  x <= C / x >= c  that hold at entry and are preserved by the body
         cands = []
         if bk and g is not None:
@@ -876,15 +987,16 @@ class NumWalker(Walker):
                     if a0 is None:
                         return
                     for cst in consts:
-                        if lp.entails(entry_store, le(a0, const(cst))):
+                        if lp.entails(num.close(entry_store, [le(a0, const(cst))]), le(a0, const(cst))):
                             cands.append((v, "le", cst, getter))
                             break
                     for cst in reversed(consts):
-                        if cst > 0 and lp.entails(entry_store, le(const(cst), a0)):
+                        if cst > 0 and lp.entails(num.close(entry_store, [le(const(cst), a0)]), le(const(cst), a0)):
                             cands.append((v, "ge", cst, getter))
                             break
             for l, v in cur_env.items():
-                havocs(v, base_env.get(l, self.local_term(st, l)), ("env", l))
+                if self.body.local_name(l):
+                    havocs(v, base_env.get(l, self.local_term(st, l)), ("env", l))
             for k, v in cur_mem.items():
                 havocs(v, base_mem.get(k, k), ("mem", k))
         def cand_cons(cs):
@@ -914,7 +1026,7 @@ class NumWalker(Walker):
                         ok = False
                         break
                     goal = le(a, const(cst)) if kind == "le" else le(const(cst), a)
-                    if not lp.entails(self.full_store(p.state), goal):
+                    if not lp.entails(num.close(self.full_store(p.state), [goal]), goal):
                         ok = False
                         break
                 if ok:
@@ -961,7 +1073,7 @@ def check_paths(walker, paths, fn_key, invariant=None, pre_for_calls=None, allow
         assume = st.get("x_assume", [])
         for kind, item in p.log:
             if kind == "cons":
-                lin.extend(num.from_constraint(item, lin + num.all_defs() + assume))
+                lin.extend(num.from_constraint(item, lin + assume))
             elif kind == "lin":
                 lin.extend(item)
             elif kind == "ev" and item[0] == "assert":
@@ -971,7 +1083,7 @@ def check_paths(walker, paths, fn_key, invariant=None, pre_for_calls=None, allow
                     status = "unknown"
                 else:
                     num.ctx_events = st["events"]
-                    base = lin + num.all_defs() + assume
+                    base = num.close(lin + assume, goal)
                     status = "discharged" if all(lp.entails(base, g) for g in goal) else "violated"
                     if status == "violated":
                         extra = num.pow2_facts(lin + assume)
@@ -986,7 +1098,7 @@ def check_paths(walker, paths, fn_key, invariant=None, pre_for_calls=None, allow
                 num.ctx_cons = st["cons"]
                 if c and c.get("pre"):
                     for text, goals in c["pre"](num, item, walker.cfg):
-                        base = lin + num.all_defs() + assume
+                        base = num.close(lin + assume, goals or ())
                         if goals is None:
                             status = "unknown"
                         else:
@@ -995,7 +1107,7 @@ def check_paths(walker, paths, fn_key, invariant=None, pre_for_calls=None, allow
                         obs.append((("pre", item[1], text, item[5]), status, p, goals))
                 lin.extend(walker.post_cons(st, item))
         if p.end[0] == "diverge" and p.end[1] in PANICS or (p.end[0] == "diverge" and "panic" in p.end[1]):
-            base = lin + num.all_defs() + assume
+            base = num.close(lin + assume)
             feas = lp.feasible(base)
             msg = ""
             for a in p.end[2]:
@@ -1015,12 +1127,12 @@ def check_paths(walker, paths, fn_key, invariant=None, pre_for_calls=None, allow
                     feas = False
             obs.append((("panic", p.end[1].split("::")[-1], msg[:80], line), "violated" if feas else "discharged", p, None))
         if p.end[0] == "cut":
-            base = lin + num.all_defs() + assume
+            base = num.close(lin + assume)
             obs.append((("loopbound", "unrolling bound", "loop exits within the unrolling bound", None),
                         "violated" if lp.feasible(base) else "discharged", p, None))
         if p.end[0] == "return" and invariant is not None:
             for text, goals in invariant(num, p):
-                base = lin + num.all_defs() + assume
+                base = num.close(lin + assume, goals)
                 status = "discharged" if all(lp.entails(base, g) for g in goals) else "violated"
                 obs.append((("invariant", text, "at return", None), status, p, goals))
     return obs
